@@ -438,7 +438,21 @@ fn concurrent_adds(rounds: u64, seed: u64, fd: i32) -> i32 {
                 wr(fd, &format!("BAD round {}: after two threads added signal {} concurrently one delivery ran {} actions of the instance and wrote {} wake bytes (re-adding must be a no-op)\n", round, s, ran, bytes));
             }
         }
-        drop(d);
+        // the last two owners (the instance and one more handle) are dropped by two threads at the same moment
+        {
+            let h2: Handle = d.handle();
+            let b2 = Arc::new(std::sync::Barrier::new(2));
+            let bb = b2.clone();
+            let jt = std::thread::spawn(move || {
+                crate::set_thread(12, class::MUTATOR);
+                bb.wait();
+                drop(h2);
+                director::lib_exit();
+            });
+            b2.wait();
+            drop(d);
+            let _ = jt.join();
+        }
         let before = STORED.load(Ordering::SeqCst);
         for s in sigs.iter() {
             unsafe { libc::raise(*s) };
